@@ -270,9 +270,11 @@ func (w *WAL) mutateStateLocked(tx stateTxn) error {
 	}
 
 	// Commit updates to meta
+	vhook("mutate.beforeCommit", nil)
 	if err := w.metaDB.CommitState(newS.Persistent()); err != nil {
 		return err
 	}
+	vhook("mutate.afterCommit", nil)
 
 	if postCommit != nil {
 		if err := postCommit(); err != nil {
@@ -280,7 +282,9 @@ func (w *WAL) mutateStateLocked(tx stateTxn) error {
 		}
 	}
 
+	vhook("mutate.beforeStore", nil)
 	w.s.Store(&newS)
+	vhook("mutate.afterStore", nil)
 	s.finalizer.Store(fn)
 	return nil
 }
@@ -291,6 +295,7 @@ func (w *WAL) mutateStateLocked(tx stateTxn) error {
 // truncated concurrently.
 func (w *WAL) acquireState() (*state, func()) {
 	s := w.loadState()
+	vhook("acquireState.loaded", nil)
 	return s, s.acquire()
 }
 
@@ -314,6 +319,7 @@ func (w *WAL) FirstIndex() (uint64, error) {
 	if err := w.checkClosed(); err != nil {
 		return 0, err
 	}
+	vhook("FirstIndex.checked", nil)
 	s, release := w.acquireState()
 	defer release()
 	return s.firstIndex(), nil
@@ -324,6 +330,7 @@ func (w *WAL) LastIndex() (uint64, error) {
 	if err := w.checkClosed(); err != nil {
 		return 0, err
 	}
+	vhook("LastIndex.checked", nil)
 	s, release := w.acquireState()
 	defer release()
 	return s.lastIndex(), nil
@@ -334,8 +341,10 @@ func (w *WAL) GetLog(index uint64, log *raft.Log) error {
 	if err := w.checkClosed(); err != nil {
 		return err
 	}
+	vhook("GetLog.checked", index)
 	s, release := w.acquireState()
 	defer release()
+	vhook("GetLog.acquired", index)
 	w.metrics.IncrementCounter("log_entries_read", 1)
 
 	raw, err := s.getLog(index)
@@ -363,12 +372,14 @@ func (w *WAL) StoreLogs(logs []*raft.Log) error {
 		return nil
 	}
 
+	vhook("StoreLogs.checked", nil)
 	w.writeMu.Lock()
 	defer w.writeMu.Unlock()
 
 	// Ensure queued rotation has completed before us if we raced with it for
 	// write lock.
 	w.awaitRotationLocked()
+	vhook("StoreLogs.locked", nil)
 
 	s, release := w.acquireState()
 	defer release()
@@ -453,6 +464,7 @@ func (w *WAL) awaitRotationLocked() {
 		// We managed to race for writeMu with the background rotate operation which
 		// needs to complete first. Wait for it to complete.
 		w.writeMu.Unlock()
+		vhook("awaitRotation.wait", nil)
 		<-awaitCh
 		w.writeMu.Lock()
 	}
@@ -470,12 +482,14 @@ func (w *WAL) DeleteRange(min uint64, max uint64) error {
 		return nil
 	}
 
+	vhook("DeleteRange.checked", nil)
 	w.writeMu.Lock()
 	defer w.writeMu.Unlock()
 
 	// Ensure queued rotation has completed before us if we raced with it for
 	// write lock.
 	w.awaitRotationLocked()
+	vhook("DeleteRange.locked", nil)
 
 	s, release := w.acquireState()
 	defer release()
@@ -526,6 +540,7 @@ func (w *WAL) Set(key []byte, val []byte) error {
 	if err := w.checkClosed(); err != nil {
 		return err
 	}
+	vhook("Set.checked", nil)
 	w.metrics.IncrementCounter("stable_sets", 1)
 	return w.metaDB.SetStable(key, val)
 }
@@ -535,6 +550,7 @@ func (w *WAL) Get(key []byte) ([]byte, error) {
 	if err := w.checkClosed(); err != nil {
 		return nil, err
 	}
+	vhook("Get.checked", nil)
 	w.metrics.IncrementCounter("stable_gets", 1)
 	return w.metaDB.GetStable(key)
 }
@@ -578,6 +594,7 @@ func (w *WAL) triggerRotateLocked(indexStart uint64) {
 func (w *WAL) runRotate() {
 	for {
 		indexStart := <-w.triggerRotate
+		vhook("rotate.received", nil)
 
 		w.writeMu.Lock()
 
@@ -589,6 +606,7 @@ func (w *WAL) runRotate() {
 		closed := atomic.LoadUint32(&w.closed)
 		if closed == 1 {
 			w.writeMu.Unlock()
+			vhook("rotate.exit", nil)
 			return
 		}
 
@@ -604,6 +622,7 @@ func (w *WAL) runRotate() {
 		// Now we are done, close the channel to unblock the waiting writer if there
 		// is one
 		close(done)
+		vhook("rotate.done", err)
 	}
 }
 
@@ -911,10 +930,12 @@ func (w *WAL) Close() error {
 		// Only close once
 		return nil
 	}
+	vhook("Close.flagged", nil)
 
 	// Wait for writes
 	w.writeMu.Lock()
 	defer w.writeMu.Unlock()
+	vhook("Close.locked", nil)
 
 	// It doesn't matter if there is a rotation scheduled because runRotate will
 	// exist when it sees we are closed anyway.
